@@ -13,6 +13,8 @@ from pyvc.contract import REGISTRY
 from pyvc.state import Obligation
 from pyvc.values import EngineUnsupported
 
+MAX_BAD_PER_UNIT = 3  # after this many undischarged obligations in one unit the rest are skipped (they
+# would only repeat the same failure at solver-timeout cost); the unit is already not verified
 _UNITS = []
 _TIER = "quick"
 
@@ -39,6 +41,9 @@ def solve(ob, timeout_ms=None, second_solver=False):
         ob.seconds = time.time() - t0
         return ob
     s.add(z3.Not(ob.goal))
+    hints = getattr(ob, "hints", None)
+    if hints:
+        s.set("timeout", min(timeout_ms, 15000))  # quick attempt first; profiles next; full budget last
     r = s.check()
     ob.solver = "z3"
     if r == z3.unsat:
@@ -56,6 +61,40 @@ def solve(ob, timeout_ms=None, second_solver=False):
     else:
         ob.verdict = "unknown"
         ob.reason = s.reason_unknown()
+        # counterexample search under concrete input profiles: sat with extra constraints is still sat
+        for prof in (getattr(ob, "hints", None) or []):
+            s2 = z3.Solver()
+            s2.set("timeout", 10000)
+            for h in ob.hyps:
+                s2.add(h)
+            s2.add(z3.Not(ob.goal))
+            for h in prof:
+                s2.add(h)
+            if s2.check() == z3.sat:
+                ob.verdict, ob.solver = "refuted", "z3+profile"
+                m = s2.model()
+                ob.model = {}
+                for k, t in (ob.observe or {}).items():
+                    try:
+                        ob.model[k] = model_value(m, t)
+                    except Exception as e:  # noqa
+                        ob.model[k] = f"<{e}>"
+                ob.model_text = trunc(str(m), 4000)
+                ob.seconds = time.time() - t0
+                return ob
+        if hints:  # full-budget retry before the second solver
+            s.set("timeout", timeout_ms)
+            r = s.check()
+            if r == z3.unsat:
+                ob.verdict = "proved"
+                ob.seconds = time.time() - t0
+                return ob
+            if r == z3.sat:
+                ob.verdict = "refuted"
+                ob.model = {}
+                ob.model_text = trunc(str(s.model()), 4000)
+                ob.seconds = time.time() - t0
+                return ob
         # second solver on the same SMT-LIB text
         r2, out = cvc5_check(s, timeout_ms)
         if r2 == "unsat":
@@ -140,16 +179,30 @@ def run_unit(idx):
             c = REGISTRY[unit.qualname]
             eng = Engine(REGISTRY)
             canary_states = c.verify(eng, unit.inst) or []
+            nbad = 0
+            profiles = getattr(c, "hint_profiles", None)
+            profiles = profiles() if profiles else None
             for ob in eng.obligations:
+                if profiles:
+                    ob.hints = profiles
+                if nbad >= MAX_BAD_PER_UNIT:
+                    rec["skipped"] = rec.get("skipped", 0) + 1
+                    continue
                 solve(ob, second_solver=(_TIER == "thorough"))
                 rec["obligations"].append(ob_record(ob, unit))
+                if ob.verdict != "proved" and ob.kind != "cover":
+                    nbad += 1
             # canary: `ensures False` must be refuted on at least one path
             can = False
+            hints = getattr(c, "canary_hints", None)
             for st in canary_states:
                 s = z3.Solver()
-                s.set("timeout", 5000)
+                s.set("timeout", 20000)
                 for h in st.pc:
                     s.add(h)
+                if hints:  # a concrete witness for the inputs makes the satisfiability check an evaluation
+                    for h in hints():
+                        s.add(h)
                 if s.check() == z3.sat:
                     can = True
                     break
